@@ -210,6 +210,11 @@ def extract(src):
     mpre = re.search(r"let \w+ = resolve_unit\(", rest)
     pre_end = mpre.start() if mpre else -1
     pre = rest[:pre_end] if pre_end >= 0 else ""
+    PREDS_ALL = {
+        "from_unit==to_unit": "eq", "to_unit==from_unit": "eq",
+        "from_unit.eq_ignore_ascii_case(to_unit)": "eq_ascii_ci", "to_unit.eq_ignore_ascii_case(from_unit)": "eq_ascii_ci",
+        "from_unit.to_lowercase()==to_unit.to_lowercase()": "eq_ci", "to_unit.to_lowercase()==from_unit.to_lowercase()": "eq_ci",
+    }
     for em in re.finditer(r"if\s+(.*?)\s*\{\s*return\s+(Ok\((\w+)\)|Err\(.*?\));\s*\}", pre, re.S):
         cond = re.sub(r"\s+", "", em.group(1))
         PREDS = {
@@ -234,6 +239,18 @@ def extract(src):
     mres, rest = take(r"let from = resolve_unit\((\w+)\)\?;\s*let to = resolve_unit\((\w+)\)\?;", rest)
     if not mres:
         raise Inconclusive("convert(): resolution of the two identifiers not recognised")
+    # early returns after the resolutions (both identifiers resolved; after the category guard when
+    # the guard precedes them in the source): same predicates, decided under those path conditions
+    LATE = r"if\s+([^{}]*?)\s*\{\s*return\s+Ok\((\w+)\);\s*\}"
+    for em in list(re.finditer(LATE, rest, re.S)):
+        cond = re.sub(r"\s+", "", em.group(1))
+        if cond not in PREDS_ALL:
+            raise Inconclusive("convert(): early return on an unrecognised condition %r" % em.group(1))
+        if em.group(2) != "value":
+            raise Inconclusive("convert(): early return of an unrecognised expression")
+        after_guard = bool(g) and cb.find(g.group(0)) < cb.find(em.group(0))
+        early.append({"pred": PREDS_ALL[cond], "ok": True, "late": True, "after_guard": after_guard})
+    rest = re.sub(LATE, "", rest, flags=re.S)
     c1, rest = take(r"let (\w+) = (\w+)\.convert_to_base\((\w+)\);", rest)
     c2, rest = take(r"let (\w+) = (\w+)\.convert_from_base\((\w+)\);", rest)
     if not c1 or not c2 or c2.group(3) != c1.group(1):
@@ -919,7 +936,7 @@ def main():
                             z3.And(*[z3.Implies(o2 == n_, cf2 == z3.RealVal(coefkey(rows[ui]))) for n_, (ui, _) in enumerate(occ)])]
             # the shortcut fires (k1 == k2) although the two identifiers denote units whose conversion is not
             # the identity (different category, or different coefficient / formula)
-            m = run.check("early return of convert() only where the conversion is the identity", et + [k1 == k2, u1 != u2, z3.Or(cat1 != cat2, cf1 != cf2)])
+            m = run.check("early return of convert() only where the conversion is the identity", et + [k1 == k2, u1 != u2, z3.Or(cat1 != cat2, cf1 != cf2)] + ([cat1 == cat2] if er.get("after_guard") else []))
             if m is not None:
                 a_, b_ = occ[m.eval(o1).as_long()], occ[m.eval(o2).as_long()]
                 ra_, rb_ = rows[a_[0]], rows[b_[0]]
@@ -929,7 +946,7 @@ def main():
                     meta = {"want": (1.0 * ra_["coef"] / rb_["coef"]) if ra_["kind"] == "linear" and rb_["kind"] == "linear" else float("nan")}
                 run.violations.append(("early-return", "convert(x, %r, %r) takes a shortcut although %s and %s differ" % (a_[1], b_[1], ra_["ids"][0], rb_["ids"][0]), [("convert", 1.0, a_[1], b_[1])], meta))
             # the shortcut also bypasses resolution: unknown / ambiguous identifiers must still be errors
-            if er["ok"]:
+            if er["ok"] and not er.get("late"):
                 m = run.check("early return of convert() does not bypass the ambiguity errors", sem + [z3.Not(res_ok)] + ([] if True else []))
                 if m is not None:
                     s_ = strs[m.eval(q).as_long()]
